@@ -3,8 +3,11 @@ import Log4rsModel.Rolling.Spec
 /-
 C04 driver. Case kinds
 
-  seq  <mode a|t> <pre: - | hex bytes> <ops>          ops  = `,`-joined, see `decOp`: restart, build, foreign append, [k>][e<n>!]record
-  conc <mode a|t> <pre> <amplifier 0|1|2> <threads>   threads = `|`-joined, each a `,`-joined record list
+  seq  <mode a|t> <pre: - | hex bytes> <ops>          ops  = `,`-joined, see `decOp`: restart, build, foreign append, external truncation `T`,
+                                                             [k>]{e<n>!|p<n>!|mw!|mf!}record
+  conc <mode a|t> <pre> <amplifier 0|1|2> <threads> [<A>]   threads = `|`-joined, each a `,`-joined record list;
+                                                      with `A`: A FileAppenders on the one path (thread i uses appender i mod A)
+                                                      and a reader taking snapshots while the writers run
 
 record = `b<id>:<n1>+<n2>+…`  scripted encoder: slices of these sizes (`b<id>:` = no slice at all),
                               content = `genBytes id (n1+n2+…)` (deterministic, starts with the id)
@@ -14,6 +17,7 @@ observation
   seq : `,`-joined hex file contents, one per op (read by a second thread right after the op returned)
   conc: <hex of the final file> `/` <`|`-joined per thread: `,`-joined ids of acknowledged records> `/`
         <number of acknowledged records an independent reader could not find right after the ack>
+        [`/` <`;`-joined hex snapshots a reader took while the writers ran>   (cases with `A`)]
 -/
 namespace Driver.C04
 open Log4rs.Proto Log4rs.Rolling Driver
@@ -91,12 +95,41 @@ def decFailRec (s : String) : Option (RecSpec × Option Nat) :=
     | _ => none
   | _ => (decRec s).map (fun r => (r, none))
 
+/-- the ASCII image of a byte: what the scripted encoder hands to `write_fmt` (which takes text) -/
+def asciiImage (b : Nat) : Nat := 0x30 + b % 64
+
+/-- `{<prefix>!}*<record>` — prefixes of a scripted record:
+  `e<n>` the encoder returns `Err` after `n` slices;  `p<n>` the encoder PANICS after `n` slices (the
+  harness catches the unwinding and goes on using the appender);
+  `mw` the slices are emitted with a `write` loop, `mf` with `write_fmt` (of their ASCII image),
+  default `write_all` -/
+def decScripted (s : String) : Option (RecSpec × Option Nat) :=
+  let parts := splitOnChar '!' s
+  match parts.getLast?, parts.dropLast with
+  | some r, pfx =>
+    match decRec r with
+    | none => none
+    | some r =>
+      pfx.foldl (fun acc p =>
+        match acc with
+        | none => none
+        | some (r, f) =>
+          match p.toList with
+          | ['m', 'w'] => some (r, f)
+          | ['m', 'a'] => some (r, f)
+          | ['m', 'f'] => if r.text then none else some ({ r with chunks := r.chunks.map (·.map asciiImage) }, f)
+          | 'e' :: ds => match (String.ofList ds).toNat? with | some n => if f.isSome then none else some (r, some n) | none => none
+          | 'p' :: ds => match (String.ofList ds).toNat? with | some n => if f.isSome then none else some (r, some n) | none => none
+          | _ => none) (some (r, none))
+  | none, _ => none
+
 /-- operations of a sequential history:
   `r` / `r<k>` restart appender 0 / k;  `n` build one more appender on the path;
   `x<id>:<size>` a foreign `O_APPEND` handle appends `genBytes id size`;
-  `[<k>>][e<n>!]record` appender `k` (default 0) handles the record, the encoder failing after `n` slices -/
+  `T` another process truncates the file to length 0;
+  `[<k>>]{prefix!}*record` appender `k` (default 0) handles the record (`decScripted`) -/
 def decOp (s : String) : Option MOp :=
-  if s = "r" then some (.restart 0) else if s = "n" then some .build else
+  if s = "r" then some (.restart 0) else if s = "n" then some .build else if s = "T" then some .truncate else
   match s.toList with
   | 'r' :: ds => ((String.ofList ds).toNat?).map MOp.restart
   | 'x' :: rest =>
@@ -107,11 +140,23 @@ def decOp (s : String) : Option MOp :=
     | _ => none
   | _ =>
     match splitOnChar '>' s with
-    | [k, body] => match decNat k, decFailRec body with
+    | [k, body] => match decNat k, decScripted body with
       | some k, some (r, f) => some (.append k r.chunks f)
       | _, _ => none
-    | [body] => (decFailRec body).map (fun (r, f) => .append 0 r.chunks f)
+    | [body] => (decScripted body).map (fun (r, f) => .append 0 r.chunks f)
     | _ => none
+
+/-- tags read off the op strings: how the scripted encoder emitted / failed -/
+def scriptTags (ops : List String) : List String :=
+  let has (p : String) := ops.any (fun o => (splitOnChar '!' ((splitOnChar '>' o).getLast?.getD "")).dropLast.any (fun x => x.startsWith p))
+  (if has "p" then ["encoder-panic"] else []) ++ (if has "mw" then ["emit-write-loop"] else []) ++
+  (if has "mf" then ["emit-write-fmt"] else [])
+
+/-- size class of a record (the sizes a change of the staging / write path would be sensitive to) -/
+def sizeTags (n : Nat) : List String :=
+  (if n = 4095 ∨ n = 4096 ∨ n = 4097 then ["size-4k±1"] else []) ++
+  (if n = 65535 ∨ n = 65536 ∨ n = 65537 then ["size-64k±1"] else []) ++
+  (if n ≥ 1048576 then ["size-1MiB"] else [])
 
 /-- which branches of the BufWriter rule a history exercises -/
 def chunkTags (w : BufFile) : List Bytes → List String
@@ -132,6 +177,8 @@ def opTags (m : OpenMode) (s : Handles) : List MOp → List String
     (if r.isEmpty then ["no-slice"] else if (recBytes r).isEmpty then ["empty-record"] else []) ++
     (if r.length > 1 then ["multi-chunk"] else []) ++
     (if k != 0 then ["second-appender"] else []) ++
+    (match s.off k with | some o => (if o != s.file.length then ["stale-offset"] else ["private-offset"]) | none => []) ++
+    sizeTags (recBytes r).length ++
     (match f with
      | none => chunkTags (s.view k) [recBytes r]
      | some _ => if (MOp.append k r f).torn then ["encoder-error", "encoder-error-after-slices"] else ["encoder-error"]) ++
@@ -139,6 +186,7 @@ def opTags (m : OpenMode) (s : Handles) : List MOp → List String
   | .restart k :: ops => "restart" :: opTags m (s.applyOp m (.restart k)) ops
   | .foreign x :: ops => "foreign-append" :: opTags m (s.applyOp m (.foreign x)) ops
   | .build :: ops => "multi-handle" :: opTags m (s.applyOp m .build) ops
+  | .truncate :: ops => "external-truncate" :: opTags m (s.applyOp m .truncate) ops
 
 def dedup (xs : List String) : List String := xs.foldl (fun acc x => if acc.contains x then acc else acc ++ [x]) []
 
@@ -151,6 +199,7 @@ def opKind : MOp → String
   | .append _ _ none => "append"
   | .append _ _ (some _) => "failed-append"
   | .foreign _ => "foreign"
+  | .truncate => "external-truncate"
   | .build => "build"
   | .restart _ => "restart"
 
@@ -158,7 +207,6 @@ def handleSeq (mS preS opsS : String) (obs : List String) : Answer :=
   match decMode mS, decOpt decBytesBig preS, mapM? decOp (decList ',' opsS), obs with
   | some m, some pre, some ops, [implObs] =>
     if !validOps 1 ops then badCase "appender index" else
-    if m = .truncate ∧ ops.any MOp.multi then badCase "several handles are modelled in append mode only" else
     let s0 := Handles.init m pre
     let modelL := (Handles.trace m s0 ops).map hex
     let model := encList "," modelL
@@ -169,24 +217,36 @@ def handleSeq (mS preS opsS : String) (obs : List String) : Answer :=
       | none => "ok"
       | some k =>
         let kind := match ops[k]? with | some op => opKind op | none => "arity"
-        "FAIL:file after op " ++ toString k ++ " is not initial ++ whole acknowledged records and foreign appends in call order;sig=C04/seq-" ++ modeName ++ "-" ++ kind
-    let tags := dedup ([modeName, if pre.isSome then "pre-existing" else "fresh"] ++ opTags m s0 ops)
+        -- input class of the former finding: truncate mode, an append that follows another writer /
+        -- appender / truncation of the path (the descriptor had a private offset)
+        let cls := if m = .truncate ∧ kind = "append" ∧ (ops.take k).any MOp.multi then "truncate-private-offset" else modeName ++ "-" ++ kind
+        "FAIL:file after op " ++ toString k ++ " is not what the last open/truncation left ++ whole acknowledged records and foreign appends in call order;sig=C04/seq-" ++ cls
+    let tags := dedup ([modeName, if pre.isSome then "pre-existing" else "fresh"] ++
+      (if m = .truncate ∧ ops.any MOp.multi then ["truncate-mode-shared-path"] else []) ++
+      scriptTags (decList ',' opsS) ++ opTags m s0 ops)
     { model, spec, tags := if ops.isEmpty then "trivial" :: tags else "seq" :: tags }
   | _, _, _, _ => badCase "seq"
 
-def handleConc (mS preS ampS thS : String) (obs : List String) : Answer :=
+def handleConc (mS preS ampS thS : String) (appsS : Option String) (obs : List String) : Answer :=
   let thr := (decList '|' thS).map (fun t => mapM? decRec (decList ',' t))
-  match decMode mS, decOpt decBytesBig preS, decNat ampS, mapM? id thr, obs with
-  | some m, some pre, some amp, some threads, [implObs] =>
-    let (fileS, acksS, invS) := match splitOnChar '/' implObs with
-      | [a, b, c] => (a, b, c)
-      | _ => ("", "", "")
+  match decMode mS, decOpt decBytesBig preS, decNat ampS, mapM? id thr, obs, (match appsS with | none => some 1 | some a => decNat a) with
+  | some m, some pre, some amp, some threads, [implObs], some napps =>
+    if napps = 0 then badCase "appenders" else
+    let (fileS, acksS, invS, snapsS) := match splitOnChar '/' implObs, appsS with
+      | [a, b, c], none => (a, b, c, "~")
+      | [a, b, c, d], some _ => (a, b, c, d)
+      | _, _ => ("", "", "", "~")
     if fileS = "PANIC" then
       { model := "no-panic", spec := "FAIL:panic in a concurrent run;sig=C04/conc-panic", tags := ["panic"] } else
     match decBytesBig fileS, mapM? (fun t => mapM? decNat (decList ',' t)) (decList '|' acksS) with
     | some file, some acks =>
       if acks.length ≠ threads.length then badCase "acks arity" else
+      -- several truncate-mode appenders: each open truncates, all opens precede the first write
       let initial := openContent m pre
+      -- snapshots a reader took while the writers ran: whole records ++ a prefix of one record
+      let snapsOk := match mapM? decBytesBig (decList ';' snapsS) with
+        | none => false
+        | some snaps => snaps.all (fun sn => Spec.isMergePrefix initial (threads.map (fun t => t.map (fun r => recBytes r.chunks))) sn)
       -- the records each thread had acknowledged, in that thread's order
       let acked : List (List Bytes) := (threads.zip acks).map fun (t, ids) =>
         (t.filter (fun r => ids.contains r.id)).map (fun r => recBytes r.chunks)
@@ -195,30 +255,35 @@ def handleConc (mS preS ampS thS : String) (obs : List String) : Answer :=
       -- every acknowledged record was readable by an independent reader at the moment of its
       -- acknowledgement (theorem C04_schedule_serial: the flush precedes the return)
       let visible := invS = "0"
-      let ok := merged && visible
+      let ok := merged && visible && snapsOk
       -- any outcome the lock machine admits (theorem C04_schedule_serial: exactly the merges) is the
       -- model's observation; otherwise the serial schedule thread 0, thread 1, … is shown
       let serial := initial ++ (threads.flatMap (fun t => t.flatMap (fun r => recBytes r.chunks)))
       let allAcks := encList "|" (threads.map (fun t => encList "," (t.map (fun r => toString r.id))))
-      let model := if ok then fileS ++ "/" ++ acksS ++ "/0" else hex serial ++ "/" ++ allAcks ++ "/0"
+      let sfx := if appsS.isSome then "/" ++ (if ok then snapsS else "~") else ""
+      let model := if ok then fileS ++ "/" ++ acksS ++ "/0" ++ sfx else hex serial ++ "/" ++ allAcks ++ "/0" ++ sfx
       let modeName := if m = .append then "append" else "truncate"
       let total := (threads.map List.length).sum
       let spec := if ok then "ok" else if !merged then
         "FAIL:final file is not initial ++ an order-preserving merge of whole acknowledged records;sig=C04/conc-" ++ modeName
-        else "FAIL:" ++ invS ++ " acknowledged record(s) were not readable from the file right after append returned;sig=C04/conc-visibility"
+        else if !visible then "FAIL:" ++ invS ++ " acknowledged record(s) were not readable from the file right after append returned;sig=C04/conc-visibility"
+        else "FAIL:a snapshot read while the writers ran is not initial ++ whole records in per-thread order ++ a prefix of one record;sig=C04/conc-snapshot"
       let big := threads.any (fun t => t.any (fun r => (recBytes r.chunks).length > CAP))
       let multi := threads.any (fun t => t.any (fun r => r.chunks.length > 1))
       let tags := ["conc", modeName, "threads-" ++ toString threads.length, "amp-" ++ toString amp] ++
         (if big then ["record>cap"] else []) ++ (if multi then ["multi-chunk"] else []) ++
-        (if pre.isSome then ["pre-existing"] else [])
+        (if pre.isSome then ["pre-existing"] else []) ++
+        (if napps > 1 then ["appenders-" ++ toString napps] else []) ++
+        (if appsS.isSome ∧ snapsS != "~" then ["reader-snapshots"] else [])
       { model, spec, tags := if total = 0 then "trivial" :: tags else tags }
     | _, _ => badCase "conc obs"
-  | _, _, _, _, _ => badCase "conc"
+  | _, _, _, _, _, _ => badCase "conc"
 
 def handle : Handler := fun cas obs =>
   match cas with
   | ["seq", m, pre, ops] => handleSeq m pre ops obs
-  | ["conc", m, pre, amp, ths] => handleConc m pre amp ths obs
+  | ["conc", m, pre, amp, ths] => handleConc m pre amp ths none obs
+  | ["conc", m, pre, amp, ths, apps] => handleConc m pre amp ths (some apps) obs
   | _ => badCase "arity"
 
 end Driver.C04
